@@ -83,9 +83,12 @@ class SimSocket(object):
 
     # -- sending side
     def sendall(self, data):
+        import errno
         import socket as _socket
         if self.closed:
             raise _socket.error('send on closed socket')
+        if self.peer_reset:
+            raise _socket.error(errno.ECONNRESET, 'Connection reset by peer')
         self.sent.append(data)
 
     def connect(self, addr):
